@@ -28,6 +28,7 @@ PROOF_FILES = ["theories/Props/C03.v", "theories/Proofs/SupportA.v", "theories/P
 FUEL = 100000
 DIR_CLASSES = ["random", "random", "axis", "sign", "sign", "pow2", "pow2", "shape_axis", "shape_orth"]
 EPS10 = Fr(10) / Fr(2 ** 52)
+CERTS_PER_GROUP = 9   # answers per case and observable submitted to the Coq checker (feature directions first)
 CASE_CPU = 40        # seconds of user CPU time one case may burn in a shared worker (normal: < 1 s)
 CONFIRM_CPU = 600    # ... when re-run alone, before it is reported as non-terminating
 
@@ -215,7 +216,7 @@ def coq_case_expr(case, res):
         sh_model = "(match shortcut_connections vs with Some l => l | None => [] end)"
         sweep = "[]"
         if case.get("sweep"):
-            starts = sc.clist(sc.cnat(i) for i in range(len(sh["vs"])))
+            starts = sc.clist(sc.cnat(i) for i in sorted(int(k) for k, _ in res["connections"]))
             sweep = f"map (fun d => map (fun i => mql (mesh_queries {FUEL} T vs conn shc i [d])) {starts}) ds"
         seq = seq.replace(" T vs conn shc ", " mT mvs mconn mshc ").replace(" ds)", " mds)")
         fresh = fresh.replace(" T vs conn shc ", " mT mvs mconn mshc ").replace(" ds", " mds")
@@ -344,6 +345,17 @@ def judge_member(sh, p, L, what):
     return [] if ok else [f"{what}: not within 1e-9*L of the set ({det})"]
 
 
+def unused_vertex_keyerror(case, r):
+    """input-class predicate of finding F-M2: MeshGraph.support_function raised KeyError AND the mesh has a
+    vertex that no triangle uses which ties for (or attains) an extreme coordinate, so that
+    shortcut_connections (argmax / argmin over ALL vertices) names a vertex without adjacency entry"""
+    sh = case["shape"]
+    if sh["kind"] != "mesh" or r.get("exc") != "KeyError" or "connections" not in r:
+        return False
+    keys = {int(k) for k, _ in r["connections"]}
+    return any(int(i) not in keys for i in r.get("shortcuts", []))
+
+
 def judge_case(case, r):
     """All property failures of one case (implementation answers only)."""
     sh = case["shape"]
@@ -365,7 +377,7 @@ def judge_case(case, r):
         for i, (d, s) in enumerate(zip(case["dirs"], r["free_box"])):
             fails += judge_point(sh, None, d, s, L, f"geometry.support_function_box(dirs[{i}])")
     for i, (d, row) in enumerate(zip(case["dirs"], r.get("sweep") or [])):
-        for start, (idx, s) in enumerate(row):
+        for start, (idx, s) in zip(sorted(int(k) for k, _ in r["connections"]), row):
             fails += judge_point(sh, case["margin"], d, s, L, f"support_function(dirs[{i}]) with cached start vertex {start}")
     fails += judge_member(sh, r["first_vertex"], L, "first_vertex")
     fails += judge_member(sh, r["center"], L, "center")
@@ -393,9 +405,13 @@ def cert_jobs(case, r):
     if sh["kind"] == "box":
         groups.append(("free_box", r["free_box"], bare, "shB"))
     for name, answers, sp, var in groups:
+        budget = CERTS_PER_GROUP
         for i, (d, s) in enumerate(zip(case["dirs"], answers)):
             if name == "fresh" and s == r["sup"][i]:
                 continue                 # the same point as the sequence answer: already certified
+            if budget == 0:
+                break                    # the feature directions come first in every case
+            budget -= 1
             if sc.finite(s) and len(s) == 3:
                 labels.append((name, i))
                 items.append(sc.support_cert_item(var, sp, s, d, tau))
@@ -403,7 +419,7 @@ def cert_jobs(case, r):
         p = r[name]
         if sc.finite(p) and len(p) == 3:
             labels.append((name, 0))
-            items.append(f"in_shape_tol shB {narrow.wit_expr(bare, p)} {narrow.vq(p)} {tau}")
+            items.append(f"in_shape_tolD shB {narrow.wit_expr(bare, p)} {narrow.vq(p)} {tau}")
     return labels, ([("shS", narrow.sh_expr(spec)), ("shB", narrow.sh_expr(bare))], f"[{'; '.join(items)}]")
 
 
@@ -621,6 +637,8 @@ def run(tier, seed, replay=None):
     unbuilt = 0
     judged_ok = {}
     fails_by_case = {}
+    known = {e["id"]: e for e in cm.load_known(PID)}
+    known_counts = {}
     for ci, (c, r) in enumerate(zip(cases, results)):
         if "build_exc" in r:
             unbuilt += 1
@@ -628,13 +646,19 @@ def run(tier, seed, replay=None):
         n_eval += len(c["dirs"]) * (2 if c["shape"]["kind"] == "mesh" else 1)
         f = judge_case(c, r)
         fails_by_case[ci] = f
-        if f:
+        if f and unused_vertex_keyerror(c, r) and "F-M2" in known:
+            R.known_finding("F-M2", known["F-M2"]["what"])
+            known_counts["F-M2"] = known_counts.get("F-M2", 0) + 1
+        elif f:
+            if unused_vertex_keyerror(c, r):
+                f = [f[0] + " [class F-M2: a vertex used by no triangle is a shortcut; not registered in known_findings.json]"]
             bad.append((c, f))
         else:
             judged_ok[ci] = True
     R.cov["evaluations"] = n_eval
     R.cov["cases"] = len(cases)
     R.cov["cases_not_constructible"] = unbuilt
+    R.cov["known_finding_failures"] = known_counts
     npy = sum(len(r.get("pyfunc_diff") or []) for r in results)
     R.cov["interpreted_vs_compiled_differences"] = npy
     pyexc = [r["pyfunc_exc"] for r in results if r.get("pyfunc_exc")]
@@ -655,7 +679,7 @@ def run(tier, seed, replay=None):
     cert = dict(submitted=sum(len(l) for _, l, _ in jobs), accepted=0, rejected_but_oracle_accepts=0, rejected_and_oracle_rejects=0)
     try:
         outs = sc.coq_eval_blocks(PID, sc.CERT_HEADER, [e for _, _, e in jobs], tag="cert",
-                                  per_file=max(2, len(jobs) // (cm.NCPU * 3) + 1), timeout=1500)
+                                  per_file=max(2, len(jobs) // cm.NCPU + 1), timeout=1500)
         rej = {}
         for (ci, labels, _), o in zip(jobs, outs):
             verdicts = [x.strip() == "true" for x in o.strip().strip("[]").split(";")] if o.strip() != "[]" else []
@@ -687,7 +711,7 @@ def run(tier, seed, replay=None):
     ndiff = 0
     stats = {}
     try:
-        outs = sc.coq_eval_blocks(PID, sc.HEADER, exprs, per_file=max(2, len(exprs) // (cm.NCPU * 3) + 1))
+        outs = sc.coq_eval_blocks(PID, sc.HEADER, exprs, per_file=max(2, len(exprs) // cm.NCPU + 1))
         for i, o in zip(idx, outs):
             m = sc.parse_coq_value(o)
             d = compare_case(cases[i], results[i], m, stats)
